@@ -231,11 +231,47 @@ theorem mapM_elemHex_hexStr {w : Nat} : ∀ (xs : List Str) (hs : List Str),
         · exact elemHex_hexStr hy
         · exact ih ys hys z hz
 
+/-- (batch 8) a pending element holds its place with zeros -/
+theorem elemHexP_hexStr {w : Nat} {x h : Str} (he : elemHexP w x = .ok h) : HexStr h := by
+  unfold elemHexP at he
+  split at he
+  · rename_i h0 hh
+    cases he
+    exact elemHex_hexStr hh
+  · split at he
+    · cases he
+      intro c hc
+      have := (List.mem_replicate.mp hc).2
+      subst this
+      decide
+    · cases he
+
+theorem mapM_elemHexP_hexStr {w : Nat} : ∀ (xs : List Str) (hs : List Str),
+    xs.mapM (elemHexP w) = .ok hs → ∀ h ∈ hs, HexStr h := by
+  intro xs
+  induction xs with
+  | nil => intro hs h; simp [List.mapM_nil, pure, Except.pure] at h; subst h; simp
+  | cons x r ih =>
+    intro hs h
+    rw [List.mapM_cons] at h
+    simp only [bind, Except.bind, pure, Except.pure] at h
+    split at h
+    · cases h
+    · rename_i y hy
+      split at h
+      · cases h
+      · rename_i ys hys
+        cases h
+        intro z hz
+        rcases List.mem_cons.mp hz with rfl | hz
+        · exact elemHexP_hexStr hy
+        · exact ih ys hys z hz
+
 theorem multi_hexStr {w : Nat} {s : Str} {hs : List Str} (h : multi w s = .ok hs) : ∀ x ∈ hs, HexStr x := by
   unfold multi at h
   split at h
   · cases h
-  · exact mapM_elemHex_hexStr _ _ h
+  · exact mapM_elemHexP_hexStr _ _ h
 
 /-- the value of a parsed operand: a literal list holds hex strings -/
 theorem createOperand_mok {s : Str} {row : InstrRow} {o : Operand} (h : createOperand s row = .ok o) :
@@ -588,6 +624,38 @@ theorem fitWidth_addl {s s' : Stmt} (h : fitWidth s = .ok s') :
       · cases h
     · cases h; exact .inl rfl
 
+/-! ### (batch 8) the list pass: an evaluated element is `hex()` of a fitted number -/
+
+theorem evalElem_hexStr {ss : List Stmt} {t : SymTab} {w : Nat} {x h : Str} (he : evalElem ss t w x = .ok h) :
+    HexStr h := by
+  rw [evalElem_eq] at he
+  split at he
+  · cases he
+  · split at he
+    · cases he
+    · obtain ⟨n, a, b, neg, f, _, hf, hh⟩ := elemRender_ok he
+      exact (fitNum_nm hf).mok.hex hh
+
+theorem evalElems_hexStr {ss : List Stmt} {t : SymTab} {w : Nat} (hw : w = 2 ∨ w = 4) {xs hs r : List Str}
+    (h : evalElems ss t w xs hs = .ok r) (hall : ∀ g ∈ hs, HexStr g) : ∀ g ∈ r, HexStr g := by
+  intro g hg
+  obtain ⟨j, hj⟩ := List.mem_iff_getElem?.mp hg
+  obtain ⟨x, h0, _, hh0, hc⟩ := evalElems_get hw h hj
+  rcases hc with ⟨_, rfl⟩ | ⟨_, he, _⟩
+  · exact hall _ (List.mem_of_getElem? hh0)
+  · exact evalElem_hexStr he
+
+theorem evalList1_mok {t : SymTab} {ss : List Stmt} {s s' : Stmt} (h : evalList1 t ss s = .ok s')
+    (hm : s.pkg.additional.MOK) : s'.pkg.additional.MOK := by
+  rcases evalList1_additional h with ⟨hs, hs', ha, ha', hev⟩ | ⟨hs, hs', ha, ha', hev⟩ | ⟨_, _, rfl⟩
+  · rw [ha] at hm
+    rw [ha']
+    exact evalElems_hexStr (.inl rfl) hev hm
+  · rw [ha] at hm
+    rw [ha']
+    exact evalElems_hexStr (.inr rfl) hev hm
+  · exact hm
+
 /-! ### every statement of an accepted program -/
 
 /-- op code, post byte and operand field of a statement of an accepted program -/
@@ -603,17 +671,20 @@ theorem Stages.stmt_mok {fs : Files} {lines : List Str} {a : Assembly} (st : Sta
   obtain ⟨ad4, e4⟩ := tr.addr
   obtain ⟨vf, ef⟩ := fixOne_same tr.hfix
   obtain ⟨vw, ew⟩ := fitWidth_same tr.hfit
+  obtain ⟨vl, el⟩ := evalList1_same tr.hlist
   have hop : s.pkg.opCode = tr.p.opCode := by
+    have e0 := congrArg (fun x => x.pkg.opCode) el
     have e1 := congrArg (fun x => x.pkg.opCode) ew
     have e2 := congrArg (fun x => x.pkg.opCode) ef
     have e3' := congrArg (fun x => x.pkg.opCode) e4
     have e4' := congrArg (fun x => x.pkg.opCode) e3
-    exact e1.trans (e2.trans (e3'.trans e4'))
+    exact e0.trans (e1.trans (e2.trans (e3'.trans e4')))
   have hpb : s.pkg.postByte = tr.s3.pkg.postByte := by
+    have e0 := congrArg (fun x => x.pkg.postByte) el
     have e1 := congrArg (fun x => x.pkg.postByte) ew
     have e2 := congrArg (fun x => x.pkg.postByte) ef
     have e3' := congrArg (fun x => x.pkg.postByte) e4
-    exact e1.trans (e2.trans e3')
+    exact e0.trans (e1.trans (e2.trans e3'))
   have h4 : tr.s4.pkg.additional = tr.p.additional := by
     have e3' := congrArg (fun x => x.pkg.additional) e4
     have e4' := congrArg (fun x => x.pkg.additional) e3
@@ -623,6 +694,7 @@ theorem Stages.stmt_mok {fs : Files} {lines : List Str} {a : Assembly} (st : Sta
     rcases fixOne_field st.addr4_numeric tr.hfix with hn | ⟨e5, _⟩
     · exact (Value.NM.of_numeric hn).mok
     · rw [e5, h4]; exact hp.addl
+  refine evalList1_mok tr.hlist ?_
   rcases fitWidth_addl tr.hfit with e | hn
   · rw [e]; exact hsf
   · exact hn.mok
